@@ -86,7 +86,9 @@ impl Searcher {
         self.history.age();
 
         let mut best_score = NEGATIVE_INFINITY;
-        let mut best_move = None;
+        // Fall back to a legal move so there is an answer even when the time budget runs
+        // out before the first iteration completes
+        let mut best_move = self.move_generator.generate_moves(board).first().copied();
 
         for current_depth in 1..=max_depth {
             if self.timer.should_stop() {
